@@ -299,9 +299,10 @@ fn queries() -> Vec<Q> {
     let long255 = "x".repeat(255);
     let long256 = "y".repeat(256);
     let long5000 = "z".repeat(5000);
-    let lits = [Val::Int(1), Val::Int(-5), Val::Null, Val::s("s"), Val::s(""), Val::s("two words"), Val::Int(i32::MAX), Val::s(&long255), Val::s(&long256), Val::s(&long5000)];
+    let lits = [Val::Int(1), Val::Int(-5), Val::Null, Val::s("s"), Val::s(""), Val::s("two words"), Val::Int(i32::MAX), Val::s(&long255), Val::s(&long256), Val::s(&long5000), Val::s("Caf\u{e9} Cr\u{e8}me"), Val::s("\u{395}\u{3bb}\u{3bb}\u{3b7}\u{3bd}\u{3b9}\u{3ba}\u{3ac} \u{4e2d}\u{6587}")];
     let long_cond = E::bin(Bin::Eq, E::col("y"), E::str(&"w".repeat(300)));
-    for cond in [None, Some(c[2].clone()), Some(c[3].clone()), Some(c[4].clone()), Some(c[5].clone()), Some(c[6].clone()), Some(long_cond)] {
+    let accent_cond = E::bin(Bin::Eq, E::col("y"), E::str("\u{dc}ber Stra\u{df}e"));
+    for cond in [None, Some(c[2].clone()), Some(c[3].clone()), Some(c[4].clone()), Some(c[5].clone()), Some(c[6].clone()), Some(long_cond), Some(accent_cond)] {
         out.push(Q::Select(Sel::Wrap { from: Box::new(Sel::table("A")), cols: vec![], cond: cond.clone() }));
         out.push(Q::Delete("A".into(), cond.clone()));
         for a in &lits {
